@@ -927,6 +927,11 @@ class SymMixin:
                 return Sym(("replace", t, at), "datetime", replaced=rep, base=o, **extra)
             if name == "timestamp":
                 return Sym(("timestamp", t), "float", inexact=True, unit="s")
+            if name in ("utctimetuple", "timetuple"):
+                if name == "utctimetuple":
+                    # converts to UTC first: leaves year 1..9999 for values within their offset of datetime.min / datetime.max
+                    self.may_raise(run, "OverflowError", self.site(node), "utctimetuple() of a datetime within its UTC offset of datetime.min/max")
+                return Sym((name, t), "timetuple", of=o)
             if name in ("utcoffset", "astimezone", "isoformat", "date", "time"):
                 return Sym((name, t, at), "any" if name == "utcoffset" else "datetime" if name == "astimezone" else "any")
         if k == "timedelta":
@@ -957,6 +962,8 @@ class SymMixin:
             return self.sym_method(a[0], name[5:], a[1:], kw, run, node)
         if name in ("struct.Struct.pack", "struct.Struct.unpack") and a and isinstance(a[0], InstV):
             return self.call_lib("struct." + name.rsplit(".", 1)[1], [a[0].attrs["format"]] + list(a[1:]), kw, run, node)
+        if name == "calendar.timegm":
+            return Sym(("timegm", ta), "int", unit="s")
         if name == "struct.pack":
             fmt = a[0]
             if not isinstance(fmt, str):
